@@ -66,6 +66,59 @@ def template_tokens(template) -> str:
     return ' '.join(out)
 
 
+def expanded_ids(ids, version=33):
+    """The ids in processing order with Table D sequences expanded (operators hidden in a sequence count)."""
+    try:
+        t = template_from_ids(ids, version)
+    except Exception:
+        return list(ids)
+    out = []
+
+    def walk(ms):
+        for d in ms:
+            if hasattr(d, 'members') and d.id >= 300000:
+                walk(d.members or [])
+            elif hasattr(d, 'members'):
+                out.append(d.id)
+                if getattr(d, 'factor', None) is not None:
+                    out.append(d.factor.id)
+                walk(d.members or [])
+            else:
+                out.append(d.id)
+    walk(t.members)
+    return out
+
+
+def wiring_hazards(ids, version=33):
+    """Static features of a template under which TemplateData.wire is known to fail or is not meant to work:
+    'refval-definition-under-204' (D27), 'marker-under-204' (D16), 'marker-without-significance' (a 224255 / 225255
+    with no 008023 / 008024 after its operator: not a well-formed use of the operator)."""
+    out = set()
+    depth204 = 0
+    defining = False
+    sig = {224: False, 225: False}
+    for i in expanded_ids(ids, version):
+        code, y = i // 1000, i % 1000
+        if code == 204:
+            depth204 += 1 if y else -1
+        elif code == 203:
+            defining = y not in (0, 255)
+        elif i in (224000, 225000):
+            sig[code] = False
+        elif i == 8023:
+            sig[224] = True
+        elif i == 8024:
+            sig[225] = True
+        elif i in (223255, 224255, 225255, 232255):
+            if depth204 > 0:
+                out.add('marker-under-204')
+            if code in sig and not sig[code]:
+                out.add('marker-without-significance')
+        elif i < 100000 and defining and depth204 > 0:
+            out.add('refval-definition-under-204')
+    return out
+
+
 def template_from_ids(ids, version=33):
     tg = table_group(version)
     return tg.template_from_ids(*ids)
